@@ -933,7 +933,9 @@ def evaluate(t, env, ufs=None, ctx=None, cache=None, extended=False):
                     if x.a == x.b == y.a == y.b:
                         return True
                     return False if (x.b < y.a or y.b < x.a) else None
-                if isinstance(x, (bool, str)) or x is None or isinstance(y, (bool, str)) or y is None:
+                if x is None or y is None:
+                    return None                         # an undetermined operand (tolerance band) decides nothing
+                if isinstance(x, (bool, str)) or isinstance(y, (bool, str)):
                     return bool(x == y) if op == 'eq' else None
                 # numbers: decided only outside a tolerance band (rounding of the 50-digit evaluation)
                 tol = ctx.mpf(10) ** (-(ctx.dps * 3) // 5) * max(1, abs(x), abs(y))
